@@ -16,7 +16,8 @@ LEVEL_NOTE = ("theorems are about the path arithmetic of the exclusion / ignore 
               "tests); pathlib.resolve, os.walk and the working directory are observed through the CLI matrix")
 DATA = core.VERIF / "harness" / "data"
 
-CFG = ("dry:\n  enabled: true\n  min_duplicate_lines: 4\n"
+CFG = ("ignore:\n  - \"lib/generated/\"\n  - \"src/gen_*.py\"\n"      # root-anchored repository ignore patterns
+       "dry:\n  enabled: true\n  min_duplicate_lines: 4\n"
        "file-placement:\n  directories:\n    src:\n      allow:\n        - \".*\\\\.py$\"\n    lib/helpers:\n      deny:\n        - pattern: \".*\\\\.ts$\"\n          reason: \"no ts here\"\n")
 
 
@@ -34,7 +35,9 @@ def project_files():
         sup[f"{d}/sup_dry_{tag}.py"] = "\n".join([f"def combine_{tag}(source):", "    # dry: ignore-block"] + blk2 + ["    return None", ""])
     # enough files for --parallel to use its process pool (2 x workers), each with one finding
     fill = {f"src/fill/f{i:02d}.py": f"def fill_{i}(a):\n    return a + {7100 + i}\n" for i in range(18)}
-    return {**sup, **fill, "src/a.py": py + "\n\n" + dup % "a", "src/web/b.ts": ts, "src/core/c.rs": rs, "lib/d.py": "def g():\n    return 777\n\n\n" + dup % "d",
+    ignored = {"lib/generated/g.py": "def generated(a):\n    return a + 9901\n", "src/gen_tables.py": "def table(a):\n    return a + 9902\n",
+               "src/web/gen_not_ignored.py": "def kept(a):\n    return a + 9903\n"}
+    return {**sup, **fill, **ignored, "src/a.py": py + "\n\n" + dup % "a", "src/web/b.ts": ts, "src/core/c.rs": rs, "lib/d.py": "def g():\n    return 777\n\n\n" + dup % "d",
             "lib/helpers/e.ts": "function h() {\n  return 888;\n}\n", ".thailint.yaml": CFG}
 
 
@@ -76,12 +79,15 @@ def impl_case(args) -> dict:
             p = proj / rel
             p.parent.mkdir(parents=True, exist_ok=True)
             p.write_text(text)
+        (base / "link").symlink_to(proj, target_is_directory=True)      # the project reached through a symbolic link
         other = Path(root) / f"w{idx}" / "elsewhere"
         other.mkdir(parents=True, exist_ok=True)
         (other / ".thailintignore").write_text("src/\n*.py\nlib/\n")      # the cwd's own ignore file must not matter
         spellings = [("dot", proj, ".", [], []), ("abs", proj, str(proj), [], []), ("rel-from-parent", base, "proj", [], []),
                      ("abs-from-elsewhere", other, str(proj), [], []), ("rel-from-elsewhere", other, os.path.relpath(proj, other), [], []),
                      ("subdir-dotdot", proj / "src", "..", [], []),
+                     ("dotdot-through-sibling", base, os.path.join("proj", "src", "..", "..", "proj"), [], []),
+                     ("via-symlink", base, "link", [], []), ("via-symlink-abs", other, str(base / "link"), [], []),
                      ("dot-parallel", proj, ".", [], ["--parallel"]),
                      ("abs-parallel", proj, str(proj), [], ["--parallel"]), ("rel-from-parent-parallel", base, "proj", [], ["--parallel"]),
                      ("global-config-abs", proj, str(proj), ["--config", ".thailint.yaml"], []),
@@ -89,7 +95,8 @@ def impl_case(args) -> dict:
         # the spellings themselves, and some that are only resolved (never linted): what the operating system makes of them
         extra = [(proj, "./"), (proj, "src/.."), (proj, "src/./../."), (proj / "src", "../src/.."), (base, "proj//"), (base, "./proj/src/../"),
                  (other, str(proj) + "/./src/.."), (proj / "src", "..//")]
-        out["spellings"] = [{"cwd": str(Path(cwd).resolve()), "target": target, "real": os.path.realpath(os.path.join(cwd, target))}
+        link = {"link": [x for x in str((base / "link").parent.resolve() / "link").split("/") if x], "target": [x for x in str(proj.resolve()).split("/") if x]}
+        out["spellings"] = [{"cwd": str(Path(cwd).resolve()), "target": target, "real": os.path.realpath(os.path.join(cwd, target)), "links": [link]}
                             for cwd, target in [(c_, t_) for _l, c_, t_, _a, _b in spellings] + extra]
         for c in cmds:
             for label, cwd, target, pre, post in spellings:
@@ -113,7 +120,8 @@ def impl_case(args) -> dict:
                     for pre in (str(proj.resolve()) + "/", str(proj) + "/"):
                         msg = msg.replace(pre, "")
                     # messages may quote the path as spelled relative to the cwd: normalise those too
-                    for pfx in ({"rel-from-parent": "proj/", "rel-from-parent-parallel": "proj/", "rel-from-elsewhere": os.path.relpath(proj, other) + "/", "subdir-dotdot": "../"}.get(label),):
+                    for pfx in ({"rel-from-parent": "proj/", "rel-from-parent-parallel": "proj/", "rel-from-elsewhere": os.path.relpath(proj, other) + "/", "subdir-dotdot": "../",
+                                 "dotdot-through-sibling": "proj/src/../../proj/", "via-symlink": "link/", "via-symlink-abs": str(base / "link") + "/"}.get(label),):
                         if pfx:
                             msg = msg.replace(pfx, "")
                     canon.append([relp, v["rule_id"], v["line"], v["column"], msg])
@@ -205,7 +213,8 @@ def run(tier: str, seed: int, st: core.ProofStatus) -> core.Result:
         for sp in im.get("spellings", []):
             res.evaluations += 1
             segs = sp["target"].split("/")
-            m = drv_sp.call({"prop": PROP, "op": "resolve", "cwd": [x for x in sp["cwd"].split("/") if x], "absolute": sp["target"].startswith("/"), "segs": segs})
+            m = drv_sp.call({"prop": PROP, "op": "resolve", "cwd": [x for x in sp["cwd"].split("/") if x], "absolute": sp["target"].startswith("/"), "segs": segs,
+                             "links": sp.get("links", [])})
             want = [x for x in sp["real"].split("/") if x]
             res.bump("spelling_resolution", "checked")
             if m["resolved"] != want:
